@@ -677,8 +677,16 @@ def stim_from_model(case, level, via="api", lang="c", embed="top", keymap=None):
     """TLC-emitted history (heap0, roots, ops with the expected P state) -> stimulus"""
     keymap = keymap or {1: "vk1", 2: "vk2"}
     heap = []
+    # the model tags every leaf with the index of its document; here every leaf cell additionally gets its own identity
+    # (value = 100 * document + running number) so that a value that arrives through an alias cannot pass for the right one
+    n = [0]
+
+    def leafval(v):
+        n[0] += 1
+        return 100 * v + n[0] % 100
+
     for node in case["heap0"]:
-        heap.append([[keymap[k], ({"r": v - 1} if kind == "r" else {kind: v})] for k, kind, v in node])
+        heap.append([[keymap[k], ({"r": v - 1} if kind == "r" else {kind: leafval(v)})] for k, kind, v in node])
     docs = [{"root": {"r": r - 1}, "via": "api"} for r in case["roots"]]
     ops = []
     for o in case["ops"]:
@@ -690,8 +698,8 @@ def stim_from_model(case, level, via="api", lang="c", embed="top", keymap=None):
             ops.append(["create", o["b"]])
         else:  # the model's SetOvr(b, d): one override per root entry of document d
             root = case["heap0"][case["roots"][o["d"] - 1] - 1]
-            for k, kind, v in root:
-                docs.append({"root": ({"r": v - 1} if kind == "r" else {kind: v}), "via": "api"})
+            for (k, kind, v), (_, cellv) in zip(root, heap[case["roots"][o["d"] - 1] - 1]):
+                docs.append({"root": cellv, "via": "api"})
                 ops.append(["set", o["b"], keymap[k], len(docs) - 1])
     stim = {"level": level, "lang": lang, "embed": embed, "heap": heap, "docs": docs, "ops": ops, "keys": sorted(keymap.values())}
     if via == "file":
@@ -713,7 +721,7 @@ def model_expectation(case, keymap=None):
             return ("m", {keymap[k]: conv(x) for k, x in j["e"]})
         if j["k"] == "any":
             return ("any", None)
-        return (j["k"], canon(j["v"]))
+        return (j["k"], j["v"])      # the document the leaf comes from
 
     return [{b + 1: conv(x) for b, x in enumerate(o["exp"])} for o in case["ops"]], [o["loose"] for o in case["ops"]]
 
@@ -726,7 +734,8 @@ def match_exp(e, o):
             return False
         om = {k: v for k, v in o[1].items() if k != REST}
         return set(om) == set(e[1]) and all(match_exp(e[1][k], om[k]) for k in e[1])
-    return e == o
+    # leaf: same marker, and the observed value (100 * document + n, see stim_from_model) comes from the expected document
+    return o[0] == e[0] and o[1].startswith("int:") and int(o[1][4:]) // 100 == e[1]
 
 
 WORDS = ["alpha", "beta", ".h", "c++17", "any", "big", "little", "", "x y"]
@@ -1012,8 +1021,8 @@ def judge(ctx, stims, results, what="history"):
         clauses = [CLAUSE.get(c, c) for c in codes.split("+")]
         out[i] = clauses
         for cl in clauses:
-            # the aliasing classes describe inputs whose failure mode is a changed document / sibling / context
-            cls = results[i]["cls"] if cl in ("merge.doc_unmodified", "merge.ctx_stable", "merge.deep_union") else "other:" + stims[i]["level"]
+            # the structural class of the input groups what one root cause produces under several clauses
+            cls = results[i]["cls"]
             ctx.violation("C13|%s|%s" % (cl, cls),
                           "%s of the real code is rejected by the P-layer: clause %s first fails at step %s of the recorded trace "
                           "(level %s%s)" % (what, cl, first, stims[i]["level"],
@@ -1125,7 +1134,8 @@ def replay_model_cases(ctx, cases, plan, label):
             if results[j]["truncated"]:
                 ctx.drift("model history could not be completed on the real code: %s" % results[j]["truncated"])
             else:
-                ctx.drift("real code differs from the I-layer prediction but satisfies P (%s, level %s)" % (label, stims[j]["level"]))
+                ctx.drift("real code differs from the I-layer prediction but satisfies P (%s, level %s): %s" %
+                          (label, stims[j]["level"], json.dumps({k: stims[j][k] for k in ("heap", "docs", "ops")})[:700]))
     ctx.validated(len(stims) - len(pick))   # matched the P state computed by TLC after every step
     return stims, results, suspects
 
@@ -1335,8 +1345,9 @@ def selftests(ctx, g=None):
 
     # spec -> code comparison: a perturbed expectation must not match, a wildcard must
     ctx.selftest("perturbed model expectation is noticed by the replay comparison",
-                 not match_exp(("m", {"vk1": ("x", canon(1))}), ("m", {"vk1": ("x", canon(2)), REST: ("x", "r")}))
-                 and match_exp(("m", {"vk1": ("any", None)}), ("m", {"vk1": ("x", canon(2)), REST: ("x", "r")})))
+                 not match_exp(("m", {"vk1": ("x", 1)}), ("m", {"vk1": ("x", canon(205)), REST: ("x", "r")}))
+                 and match_exp(("m", {"vk1": ("x", 2)}), ("m", {"vk1": ("x", canon(205)), REST: ("x", "r")}))
+                 and match_exp(("m", {"vk1": ("any", None)}), ("m", {"vk1": ("x", canon(205)), REST: ("x", "r")})))
 
 
 def replay(ctx, case):
